@@ -268,6 +268,9 @@ func runC17(c *Ctx) {
 		{"oneres", func(in system.Collection) system.Collection { return in }, "reg oneres 1 C C 0"},
 		{"badres", func(in system.Collection) (int, error) { return 0, nil }, "reg badres 1 C int,E 0"},
 		{"noterr", func(in system.Collection) (system.Collection, string) { return in, "" }, "reg noterr 1 C C,string 0"},
+		{"errptr", func(in system.Collection) (system.Collection, *c17Err) { return in, nil }, "reg errptr 1 C C,errptr 0"},
+		{"errval", func(in system.Collection) (system.Collection, c17ErrVal) { return in, c17ErrVal{} }, "reg errval 1 C C,errval 0"},
+		{"errlast3", func(in system.Collection) (system.Collection, error, error) { return in, nil, nil }, "reg errlast3 1 C C,E,E 0"},
 		{"notfn", 42, "reg notfn 0 - - 0"},
 		{"where", good, "reg where 1 C C,E 1"},
 		{"count", good, "reg count 1 C C,E 1"},
@@ -295,6 +298,42 @@ func runC17(c *Ctx) {
 			}
 		}
 		c.Emit(fc.line, out, true)
+		if map[string]bool{"firstp": true, "noargs": true, "oneres": true, "badres": true, "noterr": true, "errptr": true, "errval": true, "errlast3": true, "notfn": true}[fc.name] {
+			c.Law(out == "bad-signature", "C17/bad-signature-accepted", "only func(Collection, ...) (Collection, error) values are accepted as custom functions", fc.line, out)
+		}
+	}
+	// one name, two registrations in the same Compile: rejected (the later one does not silently win), also
+	// for a name that only the experimental table defines
+	for _, tc := range []struct {
+		what string
+		opts []fhirpath.CompileOption
+	}{
+		{"AddFunction(myFn), AddFunction(myFn)", []fhirpath.CompileOption{fhirpath.WithFunction("myFn", good), fhirpath.WithFunction("myFn", failing)}},
+		{"AddFunction(myFn), AddFunction(other), AddFunction(myFn)", []fhirpath.CompileOption{fhirpath.WithFunction("myFn", good), fhirpath.WithFunction("other", good), fhirpath.WithFunction("myFn", good)}},
+		{"WithExperimentalFuncs, AddFunction(join)", []fhirpath.CompileOption{compopts.WithExperimentalFuncs(), fhirpath.WithFunction("join", good)}},
+	} {
+		_, err := fhirpath.Compile("1", tc.opts...)
+		c.Observe("duplicate registration "+tc.what, true)
+		c.Law(err != nil, "C17/duplicate-function-name", "a function name can be registered once per Compile; a second registration is an error", tc.what, "accepted")
+	}
+	// variables are values: filtering, projecting or subsetting a variable leaves it as supplied
+	{
+		v := system.Collection{system.String("a"), system.String("b"), system.String("c")}
+		pat := []fhir.Resource{mustResource(`{"resourceType":"Patient","id":"p1"}`), mustResource(`{"resourceType":"Patient","id":"p2"}`), mustResource(`{"resourceType":"Patient","id":"p3"}`)}
+		for _, src := range []string{"%v.where($this != 'a').count() = 2 and %v.first() = 'a' and %v.count() = 3", "%v.where($this = 'c') = 'c' and %v.first() = 'a' and %v[1] = 'b' and %v.last() = 'c'", "%v.select($this & 'x').first() = 'ax' and %v.first() = 'a'",
+			"%v.tail().where($this = 'c').count() = 1 and %v[1] = 'b'", "%v.exclude('a').count() = 2 and %v.first() = 'a'", "%v.distinct().count() = 3 and %v.last() = 'c'", "%v.skip(1).where($this != 'b') = 'c' and %v[1] = 'b'",
+			"%context.where(id != 'p1').count() = 2 and %context.first().id = 'p1' and %context.count() = 3", "where(id != 'p1').count() = 2 and %context.first().id = 'p1'", "%context.where(id = 'p3').id = 'p3' and %context[0].id = 'p1'"} {
+			o := safeEval(func() (system.Collection, error) {
+				e, err := fhirpath.Compile(src)
+				if err != nil {
+					return nil, err
+				}
+				return e.Evaluate(pat, evalopts.EnvVariable("v", v))
+			})
+			c.Observe("variable unchanged "+src, true)
+			c.Law(outTokens(o) == "ok:[B:true]", "C17/variable-position", "a variable evaluates to the supplied value wherever it is referenced", src, canonOutcome(o, nil))
+			c.Law(len(v) == 3 && v[0] == system.String("a") && v[1] == system.String("b") && v[2] == system.String("c"), "C17/variable-identity", "a variable keeps the supplied value: evaluation does not write to it", src, fmt.Sprint(v))
+		}
 	}
 	// invocation: input collection and single-item typed arguments; result and error passed through
 	ev := func(src string, fn any, name string) Outcome {
@@ -413,3 +452,11 @@ func runC17(c *Ctx) {
 	o = ev("failing()", failing, "failing")
 	c.Law(len(o.Coll) == 1 && o.Coll[0] == system.String("partial"), "C17/custom-result-with-error", "the collection a custom function returns is passed through unchanged, also next to an error", "failing()", fmt.Sprint(o.Coll))
 }
+
+type c17Err struct{}
+
+func (*c17Err) Error() string { return "c17" }
+
+type c17ErrVal struct{}
+
+func (c17ErrVal) Error() string { return "c17" }
